@@ -102,7 +102,8 @@ func (b *BlockList) refreshRemote() {
 	<-time.After(time.Second)
 
 	if _, err := os.Stat(b.cfg.BlockListDir); os.IsNotExist(err) {
-		if err := os.Mkdir(b.cfg.BlockListDir, 0750); err != nil {
+		// persist may have created it in between; that is no failure.
+		if err := os.Mkdir(b.cfg.BlockListDir, 0750); err != nil && !os.IsExist(err) {
 			zlog.Error("Create blocklist directory failed", "error", err.Error())
 			return
 		}
